@@ -100,9 +100,11 @@ def _ewise(facts, c):
     fl = facts.float or "f64"
     n = 0
     pairs = []
-    for r, vals in ((1, (1, 2, 3)), (2, (1, 2, 3)), (3, (1, 2))):
+    for r, vals in ((1, (1, 2, 3, 4, 6)), (2, (1, 2, 3)), (3, (1, 2))):
         sh = _shapes(r, vals)
         pairs += [(x, y) for x in sh for y in sh]
+    # a few larger extents (multiples of each other are not broadcastable)
+    pairs += [([2, 4], [2, 2]), ([4, 2], [2, 2]), ([2, 2], [2, 4]), ([4, 4], [4, 1]), ([1, 4], [4, 4]), ([6, 1], [3, 1]), ([3, 4], [3, 2]), ([4], [2, 2]), ([2, 4], [2])]
     for r1, r2 in ((1, 2), (2, 1), (1, 3), (3, 1), (2, 3), (3, 2)):
         pairs += [(x, y) for x in _shapes(r1, (1, 2, 3) if r1 < 3 else (1, 2)) for y in _shapes(r2, (1, 2, 3) if r2 < 3 else (1, 2))]
     for b in facts.fns():
@@ -302,6 +304,97 @@ def r55_shape_contract(facts, families=("ewise", "pointwise", "matmul", "conv", 
         _flatten(facts, c)
     if "ctors" in families:
         _ctors(facts, c)
+    return c
+
+
+def r56_attach_contract(facts):
+    """ATTACH-CONTRACT: on every path through an operation (shape slice, finite grid of shapes x every assignment of tracking flags to the operands) the result is tracked exactly when some operand is, reaches every tracked operand through its recorded operands, carries a derivative then, and records nothing when no operand is tracked"""
+    import itertools as _it
+    fl = facts.float or "f64"
+    c = Ctx("R56", facts, "every path through an operation attaches the graph iff an operand is tracked (finite grid, shape slice)")
+    if SKIP:
+        return c
+    n = 0
+
+    def judge(b, what, cases):
+        """cases: list of (args builder(flags) -> (args, operand arrays), number of array operands, label)"""
+        nonlocal n
+        n += 1
+        inst = "attach:%s" % b["def"]
+        decided = undecided = 0
+        bad = None
+        for build, k, label in cases:
+            for flags in _it.product((False, True), repeat=k):
+                args, operands = build(flags)
+                out = SV.run(facts, b, args)
+                if out[0] != "value" or not isinstance(out[1], SV.Arr):
+                    undecided += 1
+                    continue
+                decided += 1
+                if bad:
+                    continue
+                r = out[1]
+                ids = [o.uid for o in operands]
+                tracked_ids = [o.uid for o, f_ in zip(operands, flags) if f_]
+                reach = r.reach() | {r.uid}
+                desc = "%s with operands %s" % (label, ", ".join("%s%s" % (o.dims, " (tracked)" if f_ else "") for o, f_ in zip(operands, flags)))
+                if any(flags) != bool(r.tracked):
+                    bad = "%s: the result is %s although %s" % (desc, "tracked" if r.tracked else "not tracked", "an operand is tracked" if any(flags) else "no operand is tracked")
+                elif any(flags) and [t for t in tracked_ids if t not in reach]:
+                    bad = "%s: the result does not record the tracked operand (no path from the result to it: its gradient is never computed)" % desc
+                elif any(flags) and not r.bop and r.uid not in ids:
+                    bad = "%s: the result records operands but carries no derivative" % desc
+                elif not any(flags) and ((r.reach() & set(ids)) or (r.bop and r.uid not in ids)):
+                    bad = "%s: the result of untracked operands keeps a reference to them / a derivative" % desc
+        where = _where(b)
+        if bad:
+            c.bad(inst, where, "%s: %s" % (what, bad))
+        elif decided == 0:
+            c.unk(inst, where, "the shape slice of %s could not be evaluated on any grid point" % what)
+        else:
+            c.ok(inst, where, "%s: %d combinations of shapes and tracking flags attach the graph as documented%s" % (what, decided, (" (%d undecided)" % undecided) if undecided else ""))
+
+    def arr(d, f_):
+        return SV.Arr(d, f_)
+    pairs = [([2, 3], [2, 3]), ([2, 3], [3]), ([1, 3], [3, 1]), ([3], [1]), ([1], [2, 2]), ([2, 2, 2], [2, 1, 1]), ([3], [3]), ([1, 1], [1])]
+    singles = [[3], [1], [2, 3], [2, 1, 2]]
+    for b in facts.fns():
+        if not b.get("thir"):
+            continue
+        ins = b.get("inputs") or []
+        tr = b.get("impl_trait_def")
+        nm = b.get("name")
+        if tr in ARITH and ins == [REF_ARR, REF_ARR]:
+            cases = []
+            for x, y in pairs:
+                cases.append(((lambda fl_, x=x, y=y: (lambda a_, b_: ([a_, b_], [a_, b_]))(arr(x, fl_[0]), arr(y, fl_[1]))), 2, "%s" % tr.rsplit("::", 1)[-1]))
+            judge(b, "%s of two arrays" % tr.rsplit("::", 1)[-1], cases)
+        elif tr in ARITH and (sorted(ins) == sorted([REF_ARR, fl]) or sorted(ins) == sorted([ARRAY, fl])):
+            cases = []
+            for x in singles:
+                cases.append(((lambda fl_, x=x: (lambda a_: ([a_ if ARRAY in i_ else SV.UNK for i_ in ins], [a_]))(arr(x, fl_[0]))), 1, "%s by a number" % tr.rsplit("::", 1)[-1]))
+            judge(b, "%s by a number" % tr.rsplit("::", 1)[-1], cases)
+        elif tr == "core::ops::arith::Neg" and ins in ([REF_ARR], [ARRAY]):
+            judge(b, "negation", [((lambda fl_, x=x: (lambda a_: ([a_], [a_]))(arr(x, fl_[0]))), 1, "negation") for x in singles])
+        elif b.get("impl_self") == ARRAY and tr is None and nm in POINTWISE and ins and ins[0] == REF_ARR and all(i_ == fl for i_ in ins[1:]):
+            judge(b, nm, [((lambda fl_, x=x: (lambda a_: ([a_] + [SV.UNK] * (len(ins) - 1), [a_]))(arr(x, fl_[0]))), 1, nm) for x in singles])
+        elif b.get("impl_self") == ARRAY and tr is None and nm == "sum" and ins == [REF_ARR, "usize"]:
+            judge(b, "sum", [((lambda fl_, x=x, k=k: (lambda a_: ([a_, k], [a_]))(arr(x, fl_[0]))), 1, "sum over the last %d" % k) for x in singles for k in range(1, len(x) + 1)])
+        elif b.get("impl_self") == ARRAY and tr is None and nm == "reshape" and ins == [REF_ARR, "alloc::vec::Vec<usize>"]:
+            judge(b, "reshape", [((lambda fl_, x=x, d=d: (lambda a_: ([a_, list(d)], [a_]))(arr(x, fl_[0]))), 1, "reshape to %s" % d)
+                                 for x, d in (([6], [2, 3]), ([2, 3], [3, 2]), ([2, 3], [6]), ([2, 3], [2, 3]), ([1], [1, 1]))])
+        elif b.get("impl_self") == ARRAY and tr is None and nm == "matmul" and len(ins) == 3:
+            cases = []
+            for x, y in (([2, 3], [3, 2]), ([2, 2], [2, 2]), ([2, 2, 3], [1, 3, 2])):
+                cases.append(((lambda fl_, x=x, y=y: (lambda a_, b_: ([(a_, False), (b_, False), SV.NONE], [a_, b_]))(arr(x, fl_[0]), arr(y, fl_[1]))), 2, "matmul"))
+                cases.append(((lambda fl_, x=x, y=y: (lambda a_, b_, c_: ([(a_, False), (b_, False), SV.Some(c_)], [a_, b_, c_]))(arr(x, fl_[0]), arr(y, fl_[1]), arr([y[-1]], fl_[2]))), 3, "matmul with an additive term"))
+            judge(b, "matmul", cases)
+        elif b.get("impl_self") == ARRAY and tr is None and nm == "conv" and ins == [REF_ARR, REF_ARR, "(usize, usize)"]:
+            cases = []
+            for im, fi, st in (([1, 3, 3], [2, 1, 2, 2], (1, 1)), ([2, 4, 4], [1, 2, 1, 1], (2, 2)), ([1, 2, 2], [1, 1, 2, 2], (1, 1))):
+                cases.append(((lambda fl_, im=im, fi=fi, st=st: (lambda a_, b_: ([a_, b_, st], [a_, b_]))(arr(im, fl_[0]), arr(fi, fl_[1]))), 2, "conv"))
+            judge(b, "conv", cases)
+    c.count("operations evaluated", n)
     return c
 
 
